@@ -38,6 +38,7 @@ type Stream struct {
 	// BlockSendAt: the k-th Send call blocks until Release (flow control).
 	BlockSendAt int
 	release     chan struct{}
+	releaseErr  error
 	sendFailed  bool
 
 	closedSend bool
@@ -144,6 +145,19 @@ func (c *cstream) Send(m *spb.ModifyRequest) error {
 			return s.ctx.Err()
 		}
 		s.mu.Lock()
+		if s.releaseErr != nil {
+			// the stalled Send fails: the RPC broke while the client was blocked by flow control
+			first := !s.sendFailed
+			s.sendFailed = true
+			s.FailSendAt = 1
+			s.SendErr = s.releaseErr
+			if first {
+				s.in <- recvItem{err: s.releaseErr}
+			}
+			s.cond.Broadcast()
+			s.mu.Unlock()
+			return io.EOF
+		}
 	}
 	s.Sent = append(s.Sent, m)
 	s.cond.Broadcast()
@@ -179,6 +193,22 @@ func (s *Stream) Fail(err error) { s.in <- recvItem{err: err} }
 
 // Release unblocks a Send blocked by BlockSendAt.
 func (s *Stream) Release() { close(s.release) }
+
+// ReleaseWithError makes the blocked Send (and every later one) fail with the
+// RPC status err.
+func (s *Stream) ReleaseWithError(err error) {
+	s.mu.Lock()
+	s.releaseErr = err
+	s.mu.Unlock()
+	close(s.release)
+}
+
+// SendCalls returns how often Send was called.
+func (s *Stream) SendCalls() int {
+	s.mu.Lock()
+	defer s.mu.Unlock()
+	return s.sendCalls
+}
 
 func (s *Stream) wait(pred func() bool) bool {
 	timer := time.AfterFunc(Watchdog, func() {
